@@ -58,21 +58,63 @@ def classify(case, impl, model, oracle):
     return ("panic " if "panic" in impl else "") + ("ok+" + "+".join(ks) if ks else "ok-only")
 
 
+def gen_rdset(rng, tier):
+    """RdataSetOwned::from_iter at the buffer level: lengths around the u16 byte split, duplicates,
+    case variants for the single-name types, empty RDATA."""
+    n = 4000 if tier == "quick" else 200000
+    for _ in range(n):
+        ty = rng.choice([1, 16, 16, 2, 5, 12, 99])
+        cls = rng.choice([1, 1, 3, 7])
+        pool = []
+        for _ in range(rng.randint(1, 4)):
+            if ty in (2, 5, 12):
+                pool.append(zg.wire(zg.flip_case(rng, [rng.choice(["6e73", "61", "6162"])] + rng.choice([[], ["63"]]), 0.4)))
+            else:
+                ln = rng.choice([0, 1, 2, 4, 16, 255, 256, 257, 300, 511, 512, 513, rng.randint(0, 700)])
+                b = rng.choice(["00", "61", "ff"])
+                pool.append((b * ln) or "-")
+        k = rng.randint(1, 8)
+        yield f"B {cls} {ty} {','.join(rng.choice(pool) for _ in range(k))}"
+
+
+def nontrivial_rdset(case, impl, model, oracle):
+    # something was dropped as a duplicate, or an RDATA of 256+ octets went through the length prefix
+    given = case.split()[3].split(",")
+    kept = impl[3:].split("+") if impl.startswith("ok ") else []
+    return len(kept) < len(given) or any(len(x) >= 512 for x in kept)
+
+
+def classify_rdset(case, impl, model, oracle):
+    if not impl.startswith("ok"):
+        return impl
+    given = case.split()[3].split(",")
+    kept = impl[3:].split("+")
+    return f"kept{len(kept)}of{len(given)}"
+
+
+RDSET_RULE = ("RdataSetOwned::from_iter on 1..8 RDATAs drawn with repetition from a pool of <=4 (lengths 0,1,2,4,16,255,256,257,300,"
+              "511,512,513 and random <=700; valid names with case variants for NS/CNAME/PTR), classes IN/CH/7; compared: the RDATAs "
+              "iter() yields, against the octet-buffer model and against the spec's first-occurrence de-duplication; "
+              "non-trivial = a duplicate was dropped or an RDATA of >=256 octets is present")
+
 CHECK = {
     "property": "C20",
     "props": "Props/C20.v",
     "theorems": ["c20_add_result", "c20_add_ok_iff", "c20_add_err_kind", "c20_iter_by_node",
-                 "c20_iter_by_rrset", "c20_iter_names_spelled", "c20_iter_state_machine", "c20_soa_ns"],
+                 "c20_iter_by_rrset", "c20_iter_names_spelled", "c20_iter_state_machine", "c20_soa_ns",
+                 "c20_rdataset_buffer", "c20_rdataset_insert"],
     "allowed_axioms": [],
-    "correspondence": {"impl_bin": "impl_zone", "extract": "Extract/ExZone.v", "driver": "run_zone.ml",
-                       "runner_name": "zone"},
-    "gen": gen,
-    "nontrivial": nontrivial,
-    "classify": classify,
-    "oracle_ok": oracle_ok,
-    "exhaustive": {"quick": False, "thorough": False},
-    "timeout": {"quick": 300, "thorough": 3000},
-    "rule": ("seeded random add histories (<=45 adds over labels {a,b,c,*,A}, apexes ., c., b.c., A.b., classes IN/CH/7): "
+    "suites": [
+        {"name": "hist", "impl_bin": "impl_zone", "extract": "Extract/ExZone.v", "driver": "run_zone.ml",
+         "runner_name": "zone", "gen": gen, "nontrivial": nontrivial, "classify": classify, "oracle_ok": oracle_ok,
+         "exhaustive": {"quick": False, "thorough": False}, "timeout": {"quick": 300, "thorough": 3000},
+         "rule": "@HIST@"},
+        {"name": "rdset", "impl_bin": "impl_zone", "extract": "Extract/ExZone.v", "driver": "run_zone.ml",
+         "runner_name": "zone", "gen": gen_rdset, "nontrivial": nontrivial_rdset, "classify": classify_rdset,
+         "exhaustive": {"quick": False, "thorough": False}, "timeout": {"quick": 300, "thorough": 3000},
+         "rule": RDSET_RULE},
+    ],
+    "rule_hist": ("seeded random add histories (<=45 adds over labels {a,b,c,*,A}, apexes ., c., b.c., A.b., classes IN/CH/7): "
              "in-zone and out-of-zone owners, class mismatches, TTL mismatches, exact duplicates, case variants of owners "
              "and of name RDATA; after new and after EVERY add the line records the Result, the full iter_by_node and "
              "iter_by_rrset output (sorted) and soa()/ns(); implementation vs model compared exactly, implementation vs "
@@ -85,7 +127,7 @@ CHECK = {
         "correspondence: checks/c20.py + checks/zonegen.py generators, harness/src/bin/impl_zone.rs, ocaml/run_zone.ml, line diff in tools/qv.py",
         "tools/gen/zoneconsts.py re-extracts Type::{A,NS,CNAME,SOA,MX,AAAA}, Class::IN and Label::asterisk() from the source",
         "model abstractions (differentially tested, not proved): Name as list of labels, HashMap as association list "
-        "(iteration order unspecified: compared as sorted sets), RdataSetOwned as list of RDATAs, binary_search_by_key as ordered scan of the sorted Vec",
+        "(iteration order unspecified: compared as sorted sets), binary_search_by_key as ordered scan of the sorted Vec",
         "Rdata::equals is a parameter of model and spec, assumed transitive; the runner uses req_simple (exact on the generated RDATA)",
     ],
     "assumptions": ["Rdata::equals is transitive for every (class, type)",
@@ -104,3 +146,5 @@ MANIFEST = {
     "technique": "machine-checked proof in Coq (abstraction invariant tree <-> flat accepted-record list, induction over the nested tree) + model/implementation correspondence check",
     "design_ref": "DESIGN.md §4 C20",
 }
+
+CHECK["suites"][0]["rule"] = CHECK.pop("rule_hist")
